@@ -88,6 +88,11 @@ SubstrTotal == \A n \in ValueLens : \A c \in SubstrCases(n) :
                   Pinned(n, c[1], c[2], c[3]) =>
                       LET e == SubstrExpected(n, c[1], c[2], c[3]) IN e.start >= 0 /\ e.len >= 0 /\ e.start + e.len <= n
 
+\* ---------------------------------------------------------------- shape of the ammo
+\* The outcome of a letter does not depend on what the ammo looks like: gRPC calls with / without metadata, with an empty
+\* payload (the letter then travels in the metadata or is the target's default), http requests with / without a body.
+AmmoVariants == {"plain", "meta", "emptymeta", "emptydefault", "body"}
+
 \* a sample class: proto, whether an error is attached, whether the step counts as failed (scenario: __EMPTY__ tag)
 Smp(proto, err, failed) == [proto |-> proto, err |-> err, failed |-> failed]
 GE400 == -400     \* "some code >= 400" (exact coding of gRPC statuses is C10/C20's business)
